@@ -183,7 +183,7 @@ func runInterleave(r *run) error {
 				r.oracleFail(j.sp.ID, "a transfer that succeeds over an unbounded transport failed over this one ("+clipStr(res.Err, 150)+"): "+j.desc, detail)
 			case !j.wantE:
 				for _, nsp := range j.t.src {
-					got, err := os.ReadFile(filepath.Join(j.sp.Dest, nsp.Path))
+					got, err := readRegular(filepath.Join(j.sp.Dest, nsp.Path))
 					if err != nil || string(got) != string(nsp.Data) {
 						detail["file"] = nsp.Path
 						r.oracleFail(j.sp.ID, "destination content differs from the source after the session: "+j.desc, detail)
